@@ -31,6 +31,24 @@ def only_via(fn, B, arm, **kw):
     return lambda F: FnCheck(F, fn, containing=B).only_via(B, arm, **kw)
 
 
+def only_via_call(fn, B, A, ok_arm, why=""):
+    """B is reached only through the Ok arm of the call A.  If A is never called in the function while B is reachable,
+    the guard is gone altogether: *violated* (not inconclusive) — used where A is named by its full path, so that a
+    missing match means a missing call rather than a renamed pattern."""
+    def run(F):
+        fc = FnCheck(F, fn, containing=B)
+        if fc.fn is None:
+            return fc.missing()
+        if fc.count(A) == 0 and fc.count(B) > 0:
+            r = fc.reachable(B)
+            if r.verdict == "holds":
+                return Result("violated", "%s reaches %s and never calls %s%s" % (fc.name.split("::")[-1], B.name, A.name, (": " + why) if why else ""),
+                              queries=r.queries, seconds=r.seconds, sample={"fn": fc.name, "kind": "ONLY_VIA", "B": B.name, "missing_call": A.name})
+            return r
+        return fc.only_via(B, ok_arm)
+    return run
+
+
 def held(fn, G, B, **kw):
     return lambda F: FnCheck(F, fn, containing=B).held(G, B, **kw)
 
